@@ -118,6 +118,10 @@ pub struct Net {
     pub max_outstanding: usize,
     /// largest number of messages ever waiting on one directed link (sent, not yet received by the peer's engine)
     pub max_occ: usize,
+    /// receives answered with "closed" since the party last completed any other operation: a party that keeps
+    /// retrying a receive on a terminated peer never returns (reported as Hang)
+    closed_recv: Vec<usize>,
+    pub livelock: Option<usize>,
     pub crash_request: Option<usize>,
     pub bytes_recv: Vec<usize>,
     seq: usize,
@@ -142,6 +146,8 @@ impl Net {
             phase_count: Default::default(),
             max_outstanding: 0,
             max_occ: 0,
+            closed_recv: vec![0; n],
+            livelock: None,
             crash_request: None,
             bytes_recv: vec![0; n],
             seq: 0,
@@ -287,6 +293,7 @@ impl Net {
                                 some = crate::adv::some_positions(&self.ops[id].phase, &sent);
                                 self.queues[party][peer].push_back(sent);
                                 self.max_occ = self.max_occ.max(self.queues[party][peer].len());
+                                self.closed_recv[party] = 0;
                                 res = Ok(());
                             }
                             SendAction::Crash => {
@@ -301,9 +308,14 @@ impl Net {
                         len = data.len() as i64;
                         self.bytes_recv[party] += data.len();
                         self.ops[id].data = Some(data);
+                        self.closed_recv[party] = 0;
                         res = Ok(());
                     } else {
                         res = Err(ChanErr("closed".into()));
+                        self.closed_recv[party] += 1;
+                        if self.closed_recv[party] > 20_000 {
+                            self.livelock = Some(party);
+                        }
                     }
                 }
             }
@@ -597,7 +609,8 @@ pub fn run<'a, T>(
             break;
         }
         let enabled = net.borrow().enabled();
-        if enabled.is_empty() || sched.steps >= max_steps {
+        let livelock = net.borrow().livelock.is_some();
+        if enabled.is_empty() || sched.steps >= max_steps || livelock {
             for p in 0..n {
                 if futs[p].is_some() {
                     out[p] = Some(Outcome::Hang);
